@@ -499,6 +499,30 @@ class Emitter:
         self.self_fields = self_fields  # field names of the newtype
         self.extra = list(extra_params)  # implicit leading parameters (e.g. k, WIDTH)
         self.prefix = fn_prefix
+        self.bodies = {}              # name -> (params, ret, body src): helpers that may be inlined
+        self.defined = None           # names emitted as Definitions (None: all of self.fns)
+        self.all_consts = {}          # name -> (type, expr src): constants that are not emitted, inlined where used
+        self.lazy_lets = {}           # name -> expr src
+        self.const_values = {}        # name -> int (closed constants)
+        self.depth = 0
+        self.emitted = set()          # modelled functions already emitted (a call to a later one is inlined)
+
+    def inline_const(self, n, env):
+        ty, src = self.all_consts[n]
+        try:
+            v = const_eval(P(tokenize(src)).parse_expr(), ty, self.const_values)
+        except TranslateError:
+            v = None
+        if v is not None:
+            return ("%d" % v, ty)
+        if self.depth > 16:
+            raise TranslateError("constant %s: cyclic definition" % n)
+        self.depth += 1
+        try:
+            s, _ = self.emit(P(tokenize(src)).parse_expr(), {k: v for k, v in env.items() if k in self.extra}, ty)
+        finally:
+            self.depth -= 1
+        return (s, ty)
 
     def ty_of_self(self):
         return self.self_repr
@@ -524,12 +548,14 @@ class Emitter:
         if k == 'block':
             out = ''
             env = dict(env)
+            # local `let`s are inlined (the source language fragment is pure): the generated term does not depend
+            # on how the source names its intermediate values
             for name, ex in e[1]:
                 s, ty = self.emit(ex, env)
                 env[name] = ty
-                out += "let %s := %s in " % (name, s)
+                env['$val:' + name] = s
             s, ty = self.emit(e[2], env, expected)
-            return ("(%s%s)" % (out, s) if out else s, ty)
+            return (s, ty)
         if k == 'if':
             c, _ = self.emit(e[1], env, 'bool')
             a, ta = self.emit(e[2], env, expected)
@@ -540,9 +566,17 @@ class Emitter:
             if len(path) == 1:
                 n = path[0]
                 if n in env:
+                    if ('$val:' + n) in env:
+                        return (env['$val:' + n], env[n])
                     return (n if n != 'self' else 'self', env[n])
                 if n in self.consts:
                     return (n, self.consts[n])
+                if n in self.lazy_lets:
+                    # a local of the enclosing function body (pattern-extracted expressions): inline its definition
+                    src = self.lazy_lets[n]
+                    return self.emit(P(tokenize(src)).parse_expr(), env, expected)
+                if n in self.all_consts:
+                    return self.inline_const(n, env)
                 raise TranslateError("unknown identifier %s" % n)
             if path == ['usize', 'BITS'] or path == ['u64', 'BITS']:
                 return ('64', 'u32')
@@ -550,6 +584,8 @@ class Emitter:
                 return ('(- 2^63)', 'isize')
             if path[0] == 'Self' and path[1] in self.consts:
                 return (path[1], self.consts[path[1]])
+            if len(path) == 2 and path[1] in self.all_consts:
+                return self.inline_const(path[1], env)
             raise TranslateError("unsupported path %s" % '::'.join(path))
         if k == 'struct':
             if len(e[2]) != 1:
@@ -662,6 +698,30 @@ class Emitter:
 
     def call_fn(self, name, args_src, env, self_arg=None):
         params, ret = self.fns[name]
+        if self.defined is not None and (name not in self.defined or name not in self.emitted) and name in self.bodies:
+            # a private helper that is not one of the modelled functions: inline its body at the call site
+            if self.depth > 16:
+                raise TranslateError("helper %s: recursion" % name)
+            hparams, hret, hbody = self.bodies[name]
+            env2 = {}
+            it = iter(args_src)
+            for pn, pt in hparams:
+                if pn == 'self':
+                    env2['self'] = 'Self'
+                    if self_arg is not None and self_arg != 'self':
+                        env2['$val:self'] = self_arg
+                else:
+                    a = next(it)
+                    sa, _ = self.emit(a, env, norm_type(pt))
+                    env2[pn] = norm_type(pt)
+                    env2['$val:' + pn] = sa
+            hr = norm_type(hret) if hret else None
+            self.depth += 1
+            try:
+                s, _ = self.emit(P(tokenize(hbody)).parse_block(), env2, hr if hr != 'Self' else self.self_repr)
+            finally:
+                self.depth -= 1
+            return (s, hr)
         out = [self.prefix + name] + list(self.extra)
         it = iter(args_src)
         for pn, pt in params:
@@ -684,6 +744,12 @@ class Emitter:
             return (s, 'Self')
         if name == 'null_mut' and not args:
             return ('0', 'ptr')
+        if len(path) == 2 and path[0] in WIDTH and name == 'from' and len(args) == 1:
+            # u64::from(x): a lossless widening, same as `x as u64`
+            sa, src = self.emit(args[0], env, None)
+            if src == 'Self':
+                src = self.self_repr
+            return (self.cast(sa, src, path[0]), path[0])
         if name in self.fns and (len(path) == 1 or path[0] == 'Self'):
             return self.call_fn(name, args, env)
         raise TranslateError("unsupported call %s" % '::'.join(path))
@@ -732,6 +798,8 @@ def coq_type(t):
 def translate_fns(fns_src, names, em, consts_env):
     """fns_src: name -> (params, ret, body); emit Definitions for `names` in order."""
     out = []
+    em.bodies.update(fns_src)
+    em.defined = set(names) if em.defined is None else (em.defined | set(names))
     for name in names:
         if name not in fns_src:
             raise TranslateError("function %s not found" % name)
@@ -750,6 +818,7 @@ def translate_fns(fns_src, names, em, consts_env):
         rty = norm_type(ret) if ret else None
         s, _ = em.emit(ast, env, rty if rty != 'Self' else em.self_repr)
         out.append("Definition %s%s %s : %s :=\n  %s." % (em.prefix, name, " ".join(binders), coq_type(ret), s))
+        em.emitted.add(name)
     return "\n\n".join(out)
 
 
@@ -761,15 +830,89 @@ Local Open Scope bool_scope.
 """
 
 
-def const_defs(consts, em, only=None):
+def const_eval(ast, ty, values):
+    """value of a closed constant expression (None if it is not one of the simple forms)"""
+    k = ast[0]
+    w = WIDTH.get(ty)
+    def fit(v):
+        return v % (1 << w) if (w and v is not None) else v
+    if k == 'paren':
+        return const_eval(ast[1], ty, values)
+    if k == 'num':
+        return ast[1]
+    if k == 'path' and len(ast[1]) == 1 and ast[1][0] in values:
+        return values[ast[1][0]]
+    if k == 'path' and len(ast[1]) == 2 and ast[1][1] in values:
+        return values[ast[1][1]]
+    if k == 'as':
+        return fit(const_eval(ast[1], ast[2] if ast[2] != '_' else ty, values))
+    if k == 'bin':
+        a = const_eval(ast[2], ty, values)
+        b = const_eval(ast[3], ty if ast[1] not in ('<<', '>>') else 'u32', values)
+        if a is None or b is None:
+            return None
+        op = ast[1]
+        if op == '<<': return fit(a << b)
+        if op == '>>': return a >> b
+        if op == '+': return fit(a + b)
+        if op == '-': return fit(a - b)
+        if op == '*': return fit(a * b)
+        if op == '/' and b: return a // b if a >= 0 and b > 0 else None
+        if op == '%' and b: return a % b if a >= 0 and b > 0 else None
+        if op == '&': return a & b
+        if op == '|': return a | b
+        if op == '^': return a ^ b
+    return None
+
+
+def resolve_int(tok, em, ty, what):
+    """a decimal literal or a named constant with a closed value"""
+    tok = tok.strip()
+    v = const_eval(P(tokenize(tok)).parse_expr(), ty, em.const_values)
+    if v is None:
+        raise TranslateError("%s: cannot evaluate %s" % (what, tok))
+    return "%d" % v
+
+
+def register_consts(em, consts):
+    """make constants that are not emitted as Definitions known to the emitter (inlined / folded where used)"""
+    for _ in range(3):
+        for name, ty, expr in consts:
+            em.all_consts.setdefault(name, (ty, expr))
+            if name not in em.const_values:
+                try:
+                    v = const_eval(P(tokenize(expr)).parse_expr(), ty, em.const_values)
+                except TranslateError:
+                    v = None
+                if v is not None:
+                    em.const_values[name] = v
+
+
+def const_defs(consts, em, only=None, fold=False, tolerant=False):
+    """emit Definitions for constants; fold: emit the value of a closed expression (so that `16`, `1 << 4` and
+    `0x10` give the same definition); tolerant: a constant that cannot be translated on its own (e.g. it mentions a
+    const generic) is not emitted but inlined where it is used"""
     out = []
     env = {}
     for name, ty, expr in consts:
         if only is not None and name not in only:
             continue
         ast = P(tokenize(expr)).parse_expr()
-        s, _ = em.emit(ast, env, ty)
+        try:
+            v = const_eval(ast, ty, em.const_values) if fold else None
+            if v is not None:
+                s = "%d" % v
+            else:
+                s, _ = em.emit(ast, env, ty)
+                v = const_eval(ast, ty, em.const_values)
+        except TranslateError:
+            if not tolerant:
+                raise
+            em.all_consts[name] = (ty, expr)
+            continue
         em.consts[name] = ty
+        if v is not None:
+            em.const_values[name] = v
         out.append("Definition %s : Z := %s." % (name, s))
     return "\n".join(out)
 
@@ -797,24 +940,25 @@ Definition sext (n x : Z) : Z := if x <? 2 ^ (n - 1) then x else x - 2 ^ n.
     pc = [c for c in get_consts(pointers) if c[0] == 'HIGH_TAG_WIDTH']
     if len(pc) != 1:
         raise TranslateError("HIGH_TAG_WIDTH not found in pointers.rs")
-    params_v = prelude + "\n" + const_defs(pc, em0) + "\n"
+    params_v = prelude + "\n" + const_defs(pc, em0, fold=True) + "\n"
     ic = {c[0]: c for c in get_consts(internal)}
+    register_consts(em0, get_consts(pointers) + get_consts(internal) + get_consts(deferred))
     for need in ('MAX_OBJECTS', 'MANUAL_EVENTS_BETWEEN_COLLECT', 'COLLECTS_TRIALS', 'COUNTS_BETWEEN_ADVANCE'):
         if need not in ic:
             raise TranslateError("%s not found in internal.rs" % need)
-        params_v += const_defs([ic[need]], em0) + "\n"
+        params_v += const_defs([ic[need]], em0, fold=True) + "\n"
     dc = {c[0]: c for c in get_consts(deferred)}
     if 'DATA_WORDS' not in dc:
         raise TranslateError("DATA_WORDS not found in deferred.rs")
-    params_v += const_defs([dc['DATA_WORDS']], em0) + "\n"
+    params_v += const_defs([dc['DATA_WORDS']], em0, fold=True) + "\n"
     # is_expired threshold
     sb = get_fns(get_impl(internal, r"impl\s+SealedBag"))
     if 'is_expired' not in sb:
         raise TranslateError("SealedBag::is_expired not found")
-    m = re.fullmatch(r"\{\s*global_epoch\.wrapping_sub\(self\.epoch\)\s*>=\s*(\d+)\s*\}", sb['is_expired'][2].strip())
+    m = re.fullmatch(r"\{\s*global_epoch\.wrapping_sub\(self\.epoch\)\s*>=\s*((?:\w+\s*::\s*)*\w+)\s*\}", sb['is_expired'][2].strip())
     if not m:
         raise TranslateError("is_expired body has an unexpected shape: %s" % sb['is_expired'][2])
-    params_v += "Definition EXPIRE_AFTER : Z := %s.\n" % m.group(1)
+    params_v += "Definition EXPIRE_AFTER : Z := %s.\n" % resolve_int(m.group(1), em0, 'isize', "is_expired threshold")
     files['Params.v'] = params_v
 
     # ---------------- StateW.v
@@ -828,7 +972,11 @@ Definition sext (n x : Z) : Z := if x <? 2 ^ (n - 1) then x else x - 2 ^ n.
     sigs = {n: (v[0], v[1]) for n, v in st_fns.items()}
     em = Emitter({'HIGH_TAG_WIDTH': 'u32'}, sigs, 'u64', ['inner'])
     s = HEADER % "src/utils.rs (consts, impl State, RcInner::alloc)" + "Require Import Params.\n\n"
-    s += const_defs(uc, em) + "\n\n"
+    NEEDED = ('EPOCH_WIDTH', 'EPOCH_MASK_HEIGHT', 'EPOCH', 'DESTRUCTED', 'WEAKED', 'TOTAL_COUNT_WIDTH',
+              'WEAK_WIDTH', 'STRONG_WIDTH', 'STRONG', 'WEAK', 'COUNT', 'WEAK_COUNT')
+    s += const_defs(uc, em, only=NEEDED) + "\n\n"
+    # any other constant of the file (also associated / function-local ones) is inlined where it is used
+    em.all_consts.update({c[0]: (c[1], c[2]) for c in uc if c[0] not in NEEDED})
     order = ['from_raw', 'epoch', 'strong', 'weak', 'destructed', 'weaked', 'with_epoch', 'add_strong',
              'sub_strong', 'add_weak', 'with_destructed', 'with_weaked', 'as_raw']
     s += translate_fns(st_fns, order, em, None) + "\n\n"
@@ -845,6 +993,7 @@ Definition sext (n x : Z) : Z := if x <? 2 ^ (n - 1) then x else x - 2 ^ n.
     mo_fns = get_fns(get_impl(utils, r"impl<const WIDTH: u32>\s+Modular<WIDTH>"))
     sigs = {n: (v[0], v[1]) for n, v in mo_fns.items()}
     emm = Emitter({'WIDTH': 'u32'}, sigs, 'isize', ['max'], extra_params=['WIDTH'], fn_prefix='m_')
+    emm.all_consts.update({c[0]: (c[1], c[2]) for c in uc if c[0] not in NEEDED})
     s = HEADER % "src/utils.rs (impl Modular)" + "Require Import Params.\n\n"
     s += translate_fns(mo_fns, ['new', 'trans', 'inver', 'max', 'le'], emm, None) + "\n"
     files['ModularW.v'] = s
@@ -865,13 +1014,20 @@ Definition sext (n x : Z) : Z := if x <? 2 ^ (n - 1) then x else x - 2 ^ n.
     m_modu = one(r"let\s+modu\s*:\s*Modular<(\w+)>\s*=\s*Modular::new\(([^;]*)\);", "Modular::new")
     m_cond = one(r"if\s+(depth == 0 \|\| )?modu\.le\(([^,]*),([^)]*)\)\s*\{", "modu.le")
     m_max = one(r"modu\.max\(&\[([^\]]*)\]\)", "modu.max")
-    m_cap = one(r"if\s+depth\s*>=\s*(\d+)\s*\{", "depth cap")
-    m_rep = one(r"if\s+count\s*%\s*(\d+)\s*==\s*0", "repin interval")
+    m_cap = one(r"if\s+depth\s*>=\s*((?:\w+\s*::\s*)*\w+)\s*\{", "depth cap")
+    m_rep = one(r"if\s+count\s*%\s*((?:\w+\s*::\s*)*\w+)\s*==\s*0", "repin interval")
     if m_cond.group(1) is None:
         root_always = 'false'
     else:
         root_always = 'true'
     emd = Emitter({'EPOCH_WIDTH': 'u32'}, {}, 'isize', [])
+    register_consts(emd, [c for c in uc if c[0] not in NEEDED])
+    # immutable locals of the function that only name an expression over the values the model knows
+    # (e.g. `let newest = curr_epoch as isize + 1;`) are inlined into the extracted expressions
+    for lm in re.finditer(r"let\s+(\w+)\s*(?::\s*[\w<>]+\s*)?=\s*([^;{}]+);", body):
+        if lm.group(1) not in ('next_epoch', 'modu', 'curr_epoch', 'node_epoch', 'link_epoch', 'child_epoch') and \
+                len(re.findall(r"let\s+(?:mut\s+)?%s\b" % lm.group(1), body)) == 1:
+            emd.lazy_lets[lm.group(1)] = lm.group(2)
     envd = {'curr_epoch': 'usize', 'node_epoch': 'u32', 'link_epoch': 'u32', 'child_epoch': 'u32'}
     width = m_modu.group(1)
     if width not in [c[0] for c in uc]:
@@ -886,12 +1042,12 @@ Definition sext (n x : Z) : Z := if x <? 2 ^ (n - 1) then x else x - 2 ^ n.
         sa, _ = emd.emit(P(tokenize(a2)).parse_expr(), envd, 'isize')
         margs.append(sa)
     s = HEADER % "src/utils.rs (dispose_general_node, increment paths)" + "Require Import Params StateW ModularW.\n\n"
-    m_age = re.fullmatch(r"\s*curr_epoch as isize - (\d+)\s*", m_cond.group(3))
+    m_age = re.fullmatch(r"\s*curr_epoch as isize - ((?:\w+\s*::\s*)*\w+)\s*", m_cond.group(3))
     if not m_age:
         raise TranslateError("reclaim threshold has an unexpected shape: %s" % m_cond.group(3))
-    s += "Definition RECLAIM_AGE : Z := %s.\n" % m_age.group(1)
-    s += "Definition DEPTH_CAP : Z := %s.\n" % m_cap.group(1)
-    s += "Definition REPIN_EVERY : Z := %s.\n" % m_rep.group(1)
+    s += "Definition RECLAIM_AGE : Z := %s.\n" % resolve_int(m_age.group(1), emd, 'isize', "reclaim threshold")
+    s += "Definition DEPTH_CAP : Z := %s.\n" % resolve_int(m_cap.group(1), emd, 'usize', "depth cap")
+    s += "Definition REPIN_EVERY : Z := %s.\n" % resolve_int(m_rep.group(1), emd, 'usize', "repin interval")
     s += "Definition ROOT_ALWAYS : bool := %s.\n" % root_always
     s += "Definition modu_max_of (curr_epoch : Z) : Z := %s.\n" % mx
     s += "(* `modu.le(%s, %s)` of the reclaim-now test *)\n" % (m_cond.group(2).strip(), m_cond.group(3).strip())
@@ -946,6 +1102,7 @@ Definition sext (n x : Z) : Z := if x <? 2 ^ (n - 1) then x else x - 2 ^ n.
 
     sigs = {n: (v[0], v[1]) for n, v in tg_fns.items()}
     emt = TaggedEmitter({'HIGH_TAG_WIDTH': 'u32'}, sigs, 'ptr', ['ptr'], extra_params=['k'], fn_prefix='t_')
+    emt.all_consts.update({c[0]: (c[1], c[2]) for c in get_consts(pointers) if c[0] != 'HIGH_TAG_WIDTH'})
     order = ['high_bits_pos', 'high_bits', 'null', 'tag', 'high_tag', 'as_raw', 'is_null', 'with_tag',
              'with_high_tag', 'ptr_eq']
     s += translate_fns(tg_fns, order, emt, None) + "\n"
@@ -963,11 +1120,69 @@ Definition sext (n x : Z) : Z := if x <? 2 ^ (n - 1) then x else x - 2 ^ n.
             return Emitter.emit_call(self, e, env, expected)
 
     eme = EpochEmitter({}, sigs, 'usize', ['data'], fn_prefix='e_')
+    eme.all_consts.update({c[0]: (c[1], c[2]) for c in get_consts(epoch)})
     s = HEADER % "src/ebr_impl/epoch.rs (impl Epoch)" + "Require Import Params.\n\n"
     s += translate_fns(ep_fns, ['starting', 'wrapping_sub', 'is_pinned', 'pinned', 'unpinned', 'successor', 'value'], eme, None) + "\n"
     s += "\n(* SealedBag::is_expired : global_epoch.wrapping_sub(self.epoch) >= EXPIRE_AFTER *)\n"
     s += "Definition is_expired (bag_epoch global_epoch : Z) : bool :=\n  e_wrapping_sub global_epoch bag_epoch >=? EXPIRE_AFTER.\n"
     files['EpochW.v'] = s
+
+    # ---------------- OrderW.v : the memory orderings the source uses, per file and kind of atomic access.
+    # Every model is sequentially consistent; what entitles it to be is the set of orderings and fences of the
+    # source.  They are tabulated here and compared (OrderP.v) with the reference table OrderRef.v the models were
+    # written against: an access may be strengthened, never weakened or dropped.
+    ORD = ['Relaxed', 'Acquire', 'Release', 'AcqRel', 'SeqCst']
+    order_files = ['src/utils.rs', 'src/strong.rs', 'src/weak.rs', 'src/ebr_impl/internal.rs', 'src/ebr_impl/guard.rs',
+                   'src/ebr_impl/collector.rs', 'src/ebr_impl/default.rs', 'src/ebr_impl/deferred.rs',
+                   'src/ebr_impl/pointers.rs', 'src/ebr_impl/epoch.rs', 'src/ebr_impl/sync/queue.rs',
+                   'src/ebr_impl/sync/list.rs', 'src/ebr_impl/sync/once_lock.rs']
+    rows = []
+    for rel in order_files:
+        try:
+            src = rd(rel)
+        except OSError:
+            raise TranslateError("source file %s not found" % rel)
+        # instrumentation is not part of the library
+        src = re.sub(r"#\[cfg\(circ_verif\)\][^\n]*\n[^\n]*", "", src)
+        src = re.sub(r'"(?:[^"\\]|\\.)*"', '""', src)
+        table = {}
+        for mo in re.finditer(r"\b(Relaxed|Acquire|Release|AcqRel|SeqCst)\b", src):
+            pos = mo.start()
+            pre = src[max(0, pos - 12):pos]
+            if re.search(r"\buse\b[^;]*$", src[max(0, src.rfind(';', 0, pos)):pos]) or re.search(r"\buse\b[^;]*$", src[max(0, src.rfind('}', 0, pos)):pos]) and ';' not in src[src.rfind('}', 0, pos):pos]:
+                continue    # `use core::sync::atomic::Ordering::{...};`
+            # innermost enclosing call
+            depth, i, commas = 0, pos - 1, 0
+            ident = 'none'
+            while i >= 0:
+                ch = src[i]
+                if ch in ')]}':
+                    depth += 1
+                elif ch in '([{':
+                    if depth == 0:
+                        if ch == '(':
+                            mi = re.search(r"(\w+)\s*(?:::\s*<[^()]*>\s*)?$", src[:i])
+                            ident = mi.group(1) if mi else 'none'
+                        else:
+                            ident = 'none'
+                        break
+                    depth -= 1
+                elif ch == ',' and depth == 0:
+                    commas += 1
+                elif ch == ';' and depth == 0:
+                    break
+                i -= 1
+            key = "%s#%d" % (ident, commas)
+            table.setdefault(key, [0] * 5)[ORD.index(mo.group(1))] += 1
+        for key in sorted(table):
+            rows.append((rel, key, table[key]))
+    s = HEADER % "the atomic accesses of src/**/*.rs (orderings per file and kind of access)"
+    s += "From Coq Require Import String.\nLocal Open Scope string_scope.\n\n"
+    s += "(* (file, method#argument position, [Relaxed; Acquire; Release; AcqRel; SeqCst] occurrence counts) *)\n"
+    s += "Definition order_table : list (string * string * list Z) :=\n  [ "
+    s += ";\n    ".join('("%s", "%s", [%s])' % (f, k, "; ".join(str(c) for c in cs)) for f, k, cs in rows)
+    s += " ].\n"
+    files['OrderW.v'] = s
     return files
 
 
